@@ -8,6 +8,8 @@ CONSTANTS
   Mode = "mc"
   H = 1
   N = 0
+  PerRecordSweep = FALSE
+  SnapshotSweep = FALSE
   Target = "all"
 SPECIFICATION Spec
 INVARIANTS TypeOK Consistent FIFO
